@@ -39,11 +39,13 @@ type harvestShape struct {
 	spawn     *ssa.Go // go statement of the closure that recurses
 	amount    *ssa.Alloc
 	start     *ssa.Alloc
-	laterCell *ssa.Alloc // receives result #0 of the recursion (items of later pages)
-	contCell  *ssa.Alloc // receives result #1 (continuation)
-	offCell   *ssa.Alloc // receives result #2 (next offset)
-	slotCell  *ssa.Alloc // the slice the element goroutines fill
-	taken     *ssa.Alloc // amountFromThisPage: the length the slot slice is made with
+	laterCell *ssa.Alloc     // receives result #0 of the recursion (items of later pages)
+	contCell  *ssa.Alloc     // receives result #1 (continuation)
+	offCell   *ssa.Alloc     // receives result #2 (next offset)
+	slotCell  *ssa.Alloc     // the slice the element goroutines fill
+	taken     *ssa.Alloc     // amountFromThisPage: the length the slot slice is made with
+	takenLoad ssa.Value      // a load of it
+	slotMake  *ssa.MakeSlice // the slot slice itself where it is not a captured variable
 }
 
 func paramCell(fn *ssa.Function, name string) *ssa.Alloc {
@@ -112,8 +114,8 @@ func analyseHarvest(P *Program) *harvestShape {
 			if !ok {
 				return
 			}
-			slot, ok := st.Addr.(*ssa.IndexAddr)
-			if !ok {
+			slot := slotAddrOf(st.Addr)
+			if slot == nil {
 				return
 			}
 			if call, ok := st.Val.(*ssa.Call); ok {
@@ -123,6 +125,9 @@ func analyseHarvest(P *Program) *harvestShape {
 							if a, ok := resolveCell(lu.X).(*ssa.Alloc); ok {
 								h.slotCell = a
 							}
+						} else if mk, ok := slot.X.(*ssa.MakeSlice); ok {
+							// the slice is not captured itself (only addresses of its elements are handed out)
+							h.slotMake = mk
 						}
 					}
 				}
@@ -135,8 +140,17 @@ func analyseHarvest(P *Program) *harvestShape {
 				if lu, ok := mk.Len.(*ssa.UnOp); ok {
 					if a, ok := resolveCell(lu.X).(*ssa.Alloc); ok {
 						h.taken = a
+						h.takenLoad = lu
 					}
 				}
+			}
+		}
+	}
+	if h.slotMake != nil {
+		if lu, ok := h.slotMake.Len.(*ssa.UnOp); ok {
+			if a, ok := resolveCell(lu.X).(*ssa.Alloc); ok {
+				h.taken = a
+				h.takenLoad = lu
 			}
 		}
 	}
@@ -392,8 +406,8 @@ func c10R3(c *Ctx) {
 			if !ok {
 				return
 			}
-			slot, ok := st.Addr.(*ssa.IndexAddr)
-			if !ok {
+			slot := slotAddrOf(st.Addr)
+			if slot == nil {
 				return
 			}
 			call, ok := st.Val.(*ssa.Call)
@@ -421,6 +435,14 @@ func c10R3(c *Ctx) {
 			}
 			// source index = slot index + startingPoint (the parameter's cell)
 			okD := false
+			// the same, read off the linear forms (the source index may have been
+			// computed where the goroutine is started and handed in through a variable)
+			if len(h.fn.Params) >= 3 {
+				d := lin(srcIdx).add(lin(slot.Index), -1).add(lin(h.fn.Params[2]), -1)
+				if d.isConst() && d.c == 0 && len(lin(h.fn.Params[2]).coef) == 1 {
+					okD = true
+				}
+			}
 			if bo, ok := srcIdx.(*ssa.BinOp); ok && bo.Op == token.ADD {
 				x, y := bo.X, bo.Y
 				if cellOf(x) == h.start {
@@ -451,7 +473,11 @@ func c10R3(c *Ctx) {
 		}
 		a0, a1 := cellOf(call.Call.Args[0]), cellOf(call.Call.Args[1])
 		// first the slice the element goroutines fill, then the one the recursion fills
-		c.check(a0 != nil && a0 == h.slotCell && a1 != nil && a1 == h.laterCell, fname+"/concat-order", P.InstrPos(ret), fname,
+		okSlots := a0 != nil && a0 == h.slotCell
+		if h.slotMake != nil && call.Call.Args[0] == ssa.Value(h.slotMake) {
+			okSlots = true
+		}
+		c.check(okSlots && a1 != nil && a1 == h.laterCell, fname+"/concat-order", P.InstrPos(ret), fname,
 			"result = this page's items followed by the later pages' items", "the result is not this page's items followed by the later pages' items")
 	}
 	// recursive request: amount - amountFromThisPage, offset 0
@@ -461,6 +487,11 @@ func c10R3(c *Ctx) {
 		okAm := false
 		if bo, ok := args[1].(*ssa.BinOp); ok && bo.Op == token.SUB {
 			okAm = cellOf(bo.X) != nil && cellOf(bo.X) == h.amount && cellOf(bo.Y) != nil && cellOf(bo.Y) == h.taken
+		}
+		if !okAm && h.takenLoad != nil && len(h.fn.Params) >= 3 {
+			// the same, read off the linear forms (the operands may have gone through copies)
+			d := am.add(lin(h.fn.Params[1]), -1).add(lin(h.takenLoad), 1)
+			okAm = d.isConst() && d.c == 0 && len(lin(h.takenLoad).coef) == 1 && len(lin(h.fn.Params[1]).coef) == 1
 		}
 		off, isC := constInt(args[2])
 		c.check(okAm && isC && off == 0, FuncName(h.recFn)+"/remainder-request", P.InstrPos(h.recCall), FuncName(h.recFn),
